@@ -8,6 +8,7 @@ import (
 	"encoding/json"
 	"fmt"
 	"sort"
+	"strconv"
 	"strings"
 
 	cstate "0chain.net/chaincore/chain/state"
@@ -328,6 +329,25 @@ func judge(h hist, o op, r opRes, count func(string)) []viol {
 				} else {
 					add("wrong-value-stored", "setting %q is %s after the update, the request says %s", s, r.after[k][s], w)
 				}
+			}
+		}
+	}
+	// ordered duration pairs, compared in the contract's unit (whole seconds for vestingsc), independent of the
+	// contract's own validate(): an accepted update must leave them in order
+	if r.out == "OutOk" && o.Kind == "update" {
+		ns := func(name string) (int64, bool) {
+			v, ok := r.after[k][name]
+			if !ok || !strings.HasPrefix(v, "SvZ ") {
+				return 0, false
+			}
+			z, err := strconv.ParseInt(strings.Trim(strings.TrimPrefix(v, "SvZ "), "()"), 10, 64)
+			return z, err == nil
+		}
+		if k == kVesting {
+			mn, ok1 := ns("min_duration")
+			mx, ok2 := ns("max_duration")
+			if ok1 && ok2 && (mn/1e9 < 1 || mx/1e9 <= mn/1e9) {
+				add("duration-order-not-validated-in-seconds:vestingsc", "accepted update leaves min_duration = %dns, max_duration = %dns: in the contract's unit (whole seconds) max_duration is not greater than min_duration (or min_duration < 1s)", mn, mx)
 			}
 		}
 	}
